@@ -243,6 +243,13 @@ fn run_c04(case: &Value, id: &str, _rng: &mut Rng) -> Value {
         piece,
     };
     let xapp = Header::from_bytes(&b"X-App"[..], &b"v"[..]).unwrap();
+    let extra: Option<Header> = match case["apphdr"].as_str().unwrap_or("none") {
+        "te-lower" => Some(Header::from_bytes(&b"transfer-encoding"[..], &b"chunked"[..]).unwrap()),
+        "te-mixed-gzip" => Some(Header::from_bytes(&b"Transfer-encoding"[..], &b"gzip"[..]).unwrap()),
+        "conn-upper" => Some(Header::from_bytes(&b"CONNECTION"[..], &b"close"[..]).unwrap()),
+        "trailer-lower" => Some(Header::from_bytes(&b"trailer"[..], &b"X-T"[..]).unwrap()),
+        _ => None,
+    };
     let resp = if case["route"].as_str() == Some("tmpl") {
         // a template with its own (different) body, re-used with new data
         Response::from_string("a template body of some other length")
@@ -252,9 +259,13 @@ fn run_c04(case: &Value, id: &str, _rng: &mut Rng) -> Value {
             .with_chunked_threshold(thr)
             .boxed()
     } else {
-        Response::new(StatusCode(status), vec![xapp], reader, if declared { Some(len) } else { None }, None)
+        let mut r = Response::new(StatusCode(status), vec![xapp], reader, if declared { Some(len) } else { None }, None)
             .with_chunked_threshold(thr)
-            .boxed()
+            .boxed();
+        if let Some(h) = extra {
+            r.add_header(h);
+        }
+        r
     };
     let mut out = Vec::new();
     let r = resp.raw_print(&mut out, ver, &req_headers, head, None);
@@ -522,6 +533,40 @@ fn ctor_cases(out: &mut Vec<Value>) {
     }
 }
 
+/// "holding the current time": one thread answers every 250 ms for a little over four seconds (real time); every
+/// response carries the time of its own printing, not the time of an earlier one
+fn date_sequence(out: &mut Vec<Value>) {
+    let mut all_ok = true;
+    let mut worst = 0i64;
+    let mut last = (Vec::new(), 0usize, 0usize, 0usize);
+    for _ in 0..18 {
+        let r = Response::from_data(body(5));
+        let mut o = Vec::new();
+        let _ = r.raw_print(&mut o, HTTPVersion(1, 1), &[], true, None);
+        let now = std::time::SystemTime::now().duration_since(std::time::UNIX_EPOCH).unwrap().as_secs() as i64;
+        let text = String::from_utf8_lossy(&o).to_string();
+        let date = text.lines().find_map(|l| {
+            let (n, v) = l.split_once(':')?;
+            if n.eq_ignore_ascii_case("date") { Some(v.trim().to_string()) } else { None }
+        });
+        match date.as_deref().and_then(parse_imf) {
+            Some(t) => {
+                worst = worst.max((t - now).abs());
+                if (t - now).abs() > 2 {
+                    all_ok = false;
+                }
+            }
+            None => all_ok = false,
+        }
+        let (sent, ndate, nserver, nprot, _dv) = observe_headers(&o, &[]);
+        last = (sent, ndate, nserver, nprot);
+        std::thread::sleep(std::time::Duration::from_millis(250));
+    }
+    out.push(json!({"prop":"C19","id":"C19-date-sequence",
+        "case":{"list":[],"route":"date-sequence","ncase":"std","ctorlen":5, "worst_skew_s": worst},
+        "sent":last.0,"ndate":last.1,"nserver":last.2,"nprotected":last.3,"datevalid":all_ok,"declared":5}));
+}
+
 pub fn main_fn(args: &[String]) {
     let cases = arg(args, "--cases").expect("--cases");
     let outp = arg(args, "--out").expect("--out");
@@ -561,6 +606,7 @@ pub fn main_fn(args: &[String]) {
     if prop == "C19" {
         let mut extra = Vec::new();
         ctor_cases(&mut extra);
+        date_sequence(&mut extra);
         for o in extra {
             writeln!(out, "{}", o).unwrap();
             n += 1;
